@@ -11,7 +11,7 @@ import (
 
 func vN7() int {
 	if vThorough() {
-		return 32
+		return 26
 	}
 	return 18
 }
